@@ -40,7 +40,11 @@ def generate(rng, tier):
         bases = []
         for j, pres in enumerate(("hdr", "eh", "debug")):
             ba = 0x10000000 * (j + 1)
-            s.module_dwarf("M%d" % j, ba, ba + span, ba, base_svma, pres, fdes, rng, shuffle=True,
+            # section orders: random; or two sorted runs one after the other (two object files linked together: every
+            # neighbouring pair is in order, the section as a whole is not)
+            nfd = len(fdes)
+            order = (list(range(nfd // 2, nfd)) + list(range(nfd // 2))) if (idx + j) % 3 == 0 and nfd >= 3 else None
+            s.module_dwarf("M%d" % j, ba, ba + span, ba, base_svma, pres, fdes, rng, shuffle=True, order=order,
                            n_cies=(2 + idx % 2) if mixed else rng.range(1, 3), pcrel=(pres != "debug" and rng.chance(1, 2)),
                            mixed=mixed, macho_names=(idx % 5 == 3),
                            hdr_enc=rng.choice(["abs8", "gnu"]) if base_svma < 0x80000000 else "abs8")
